@@ -252,8 +252,28 @@ PROPS["C08"] = dict(
     thorough=dict(shards=16, timeout=2400),
 )
 
+PROPS["C09"] = dict(
+    pkg="c09", level="exploration", design_ref="DESIGN.md section 3, C09",
+    technique="rapid-generated concurrent callers on one client with harness-controlled completion order (gated service functions) and scripted peers speaking the frame formats with generated response orders, stray and duplicated identifiers; 15-bit identifier wrap on UDP; reverse calls against real and scripted providers",
+    level_text=("(a) 2-12 callers on one client (mock, tcp, unix, udp, websocket on both servers, http, fasthttp; worker pool on/off) call a gated function; the harness completes the "
+                "functions in a generated order (in order, reversed, permuted, interleaved; strictly one by one or at once) with quick calls in between; every caller must receive "
+                "the response to its own argument. (b) A scripted peer (tcp, unix, udp, websocket) written against the frame formats answers the collected requests in a generated "
+                "order, mixing in responses for identifiers that are unused, far away, not yet issued or already answered, duplicates and text messages; callers must get their "
+                "own response, a second round on the same connection must succeed and the client must not have reconnected. (c) On UDP one call stays pending while 32767 more calls "
+                "wrap the 15-bit identifier and a second pending call is issued; both must get their own response in either release order. (d) Reverse calls: concurrent "
+                "Caller.InvokeContext against a real provider with gated functions, and against a scripted provider returning results in generated batches with unknown and "
+                "repeated identifiers; and a forced interleaving (verif yield point in Caller.begin) in which calls are queued exactly while the provider's begin is between its queue "
+                "check and its registration."),
+    level_note="Completion order is controlled by the harness (gates inside the service function, scripted peers); the interleaving of the callers' registrations is left to the Go scheduler and sampled.",
+    rule=("real-service / reverse-provider: rapid-drawn (endpoint, callers, completion order); all non-trivial (>= 2 concurrent calls). scripted-peer / reverse-scripted: non-trivial = the script contains "
+          "at least one stray or duplicate. udp-wrap: fixed scenarios x pool x release order. reverse-forced: transport x earlier calls x calls in the window, all non-trivial. Distinct by case text."),
+    assumptions=["loopback networking and unix sockets are available", "identifier reuse by a stale response arriving after 32768 further calls on UDP is outside the protocol's reach and not generated"],
+    quick=dict(shards=4, timeout=900),
+    thorough=dict(shards=16, timeout=3000),
+)
+
 # properties not claimed yet (kept current as checks land)
 _ALL = ["C%02d" % i for i in range(1, 21)]
 NOT_APPLICABLE = [dict(property_id=p, reason="check not built yet in this revision (planned in DESIGN.md section 3); not a limit of the technique")
                   for p in _ALL if p not in PROPS]
-HOOK_COMMITS = ["16e4c9c", "8b4a7e5"]
+HOOK_COMMITS = ["16e4c9c", "8b4a7e5", "8ae0263"]
